@@ -53,6 +53,7 @@ class Registry:
         self.classes = {}        # class name -> {'fields': {name: default ast}, 'methods': {}, 'props': {}, 'target': str}
         self.externals = {}      # static path -> callable(ex, st, args, kwargs, node) -> list of (st, val) | Flow
         self.k5 = []             # descriptions of assumed external contracts
+        self.axioms = []         # callables returning the defining axioms of recursive spec functions
 
     def add(self, c):
         self.contracts[c.name] = c
